@@ -5,7 +5,7 @@ import KG.Spec.LocalLimiter
 
 * `C05.hist {ops, outs}`: run a reconfiguration/request history through the sequential model
   (`KG.Model.LocalLimiter`), return the model's answers, the limiter description seen by each arriving
-  request, and the judge (`KG.Spec.LocalLimiter.judge`) on the model's answers and on the answers `outs`
+  request, the exact judge (`judgeExact`) on the model's answers and the property's judge (`judge`) on the answers `outs`
   observed on the real code.
 * `C05.sched {max, events}`: run a schedule through the small-step model of the lock-free counter
   (`KG.Model.MaxInflight`), return the shared state and the stepping thread's state after every event.
@@ -91,7 +91,7 @@ def doHist (a : Json) : Except String Json := do
   let mouts := run World.init ops
   pure <| J.obj [
     ("model", Json.arr (runDesc World.init ops).toArray),
-    ("judge_model", optIdx (judge ops mouts)),
+    ("judge_model", optIdx (judgeExact ops mouts)),
     ("judge_impl", optIdx (judge ops outs))]
 
 open KG.Model.MaxInflight in
